@@ -218,11 +218,29 @@ def run_impl(case):
     obs['rg_sizes'] = [md.row_group(i).num_rows for i in range(md.num_row_groups)]
     obs['codec'] = md.row_group(0).column(0).compression if md.num_row_groups else None
     obs['file_columns'] = pf.schema_arrow.names
+    total = md.num_rows
     pf.close()
-    file_idx = indices(pq.read_table(path).to_pylist(), src_canon)
-    obs['file_n'] = len(file_idx)
+    # a file with far too many rows is already a violation: look at its first rows only (keeps a defective
+    # tree from making the check slow)
+    cap = 3 * case['k'] + 50
+    if total > cap:
+        first, pf2 = [], pq.ParquetFile(path)
+        for b in pf2.iter_batches(batch_size=cap):
+            first += b.to_pylist()
+            if len(first) >= cap:
+                break
+        pf2.close()
+        file_idx = indices(first[:cap], src_canon)
+    else:
+        file_idx = indices(pq.read_table(path).to_pylist(), src_canon)
+    obs['file_n'] = total
     obs['file_runs'] = runs(file_idx)
     got, lend = [], []
+    if total > cap:
+        os.remove(path)
+        obs.update({'load_end': ['not-run: file has %d rows for %d source rows' % (total, case['k'])], 'load_n': 0,
+                    'load_runs': [], 'open_obj_calls': opened})
+        return obs
     src, fobj = path, None
     if case['io'] == 'fileobj':
         src = fobj = open(path, 'rb')
